@@ -189,6 +189,10 @@ def failure_case(asm, acc, case):
         acc['ctr']['failure_runs'] += 1
         acc['ntkeys'].add(core.ckey('f', tuple(sorted((k, str(v)) for k, v in case.items()))))
         core.see(acc, 'faults', fault + ('/' + case['kind2'] if fault.startswith('inject:') else ''))
+        if launcher and 'BBV-NOFUNC' in r.stderr:
+            acc['ctr']['injected_function_missing'] += 1       # the tree has no function of that name (renamed / removed pass)
+            core.see(acc, 'functions_not_called', fault)
+            return
         if launcher and 'BBV-INJECTED' not in r.stderr:
             acc['ctr']['injection_not_reached'] += 1
             return
